@@ -18,6 +18,25 @@ ASSUME_COMMON = [
 ]
 
 PROPS = {
+    "C01": {
+        "level": "exploration",
+        "rule": "case = one full `sx <scan> ...` execution in the simulated world: command in {arp, icmp, udp, tcp, tcp syn/fin/null/xmas, tcp --flags, socks}, target mode in {subnet (aligned/unaligned/host spelling, /32../22), file of ip/port pairs, file of addresses x port ranges (also from stdin), file of addresses}, port lists (single, edge, adjacent/overlapping, --ports-file, >200 ranges = chunked), exclusion files, VPN (no MAC) or Ethernet framing, NumCPU 1..64 / workers 1..1000, rand seed, scheduling strategy; oracle = multiset of decoded probes on the wire (or dials) equals the reference enumeration; distinct = distinct (argv shape, schedule-trace hash); non-trivial = >= 2 expected probes",
+        "suites": [{"name": "C01-coverage", "quick": 2400, "thorough": 60000, "budget_quick": 100, "budget_thorough": 1500}],
+        "expect_probes": ["chunked-scan", "targets-from-stdin", "pool-reuse"],
+        "components": COMPONENTS_CMD,
+        "assumptions": ASSUME_COMMON + ["range sizes above ~40k probes per run are not reached (cost); the permutation arithmetic for huge ranges is C04 (n/a)",
+                                        "docker/elastic probe counting is done at HTTP level in the C08/C10 suites, not here"],
+    },
+    "C02": {
+        "level": "exploration",
+        "rule": "case = one full command execution; variants: scans with generated exclusion files (hosts, CIDRs, unaligned, nested/overlapping, comments, blanks), target lists with IPv4-mapped 16-byte spellings, every entry of a catalogue of non-IPv4 target arguments (IPv6 hosts, small/large IPv6 CIDRs, IPv4-mapped CIDRs and hosts, garbage) on every scan command, exclusion files with an over-long line, exclusion file read faults (EIO at any offset, short reads); oracle = every probe destination inside the reference target set and outside every exclusion, nothing else removed, bad targets refused with nothing sent and no panic/hang; distinct = (variant, argv shape, trace hash)",
+        "suites": [{"name": "C02-confinement", "quick": 2400, "thorough": 60000, "budget_quick": 100, "budget_thorough": 1500,
+                    "enum": {"what": "catalogue of 27 non-IPv4 target spellings x 3 draws of the scan command", "quick": 81, "thorough": 81}}],
+        "expect_probes": ["refused-on-exclusion-file-fault"],
+        "components": COMPONENTS_CMD,
+        "assumptions": ASSUME_COMMON + ["an IPv4-mapped IPv6 host (::ffff:a.b.c.d) may be refused or scanned as exactly a.b.c.d",
+                                        "under exclusion-file read faults the accepted outcomes are: refusal with nothing sent, or a scan honouring the complete list"],
+    },
     "C20": {
         "level": "fault_enumeration",
         "rule": "cases = read-outcome sequences over {F frame, P frame+processor error, A EAGAIN, T timeout net.Error, R ECONNRESET, U unknown, W wrapped temporary, X EOF/EBADF/closed-file}; "
@@ -42,6 +61,10 @@ for _p in PENDING:
         NOT_APPLICABLE.append({"property_id": _p, "reason": "check under construction in this session - not claimed yet (planned in DESIGN.md section 4)"})
 
 MANIFEST_TEXT = {
+    "C01": {"text": "The whole sx command (cobra parsing, generator selection, chunk loop, exclusion filter, ARP-cache resolver, packet builders, sender) runs under the seeded scheduler on a simulated AF_PACKET wire; every frame written is decoded by an independent codec and the multiset of (address, port) probes is compared with a reference enumeration of the specification. Exploration over generated specifications, rand seeds and schedules.",
+            "note": "Sampled specifications up to ~40k probes; kernel/NIC replaced by simwire; socks via simulated TCP dials. Trusts pktcodec and the 40-line reference enumeration."},
+    "C02": {"text": "Same full-command simulation as C01 with the confinement oracle (destination of every probe inside the target set and outside exclusions, nothing else removed) over generated exclusion files, a complete catalogue of non-IPv4 target spellings (must be refused, nothing sent, no panic/hang) and injected exclusion-file faults (over-long line, EIO at any offset, short reads).",
+            "note": "The catalogue of bad targets is finite (27 spellings); exclusion files are generated, not enumerated. Fault runs accept refusal or a scan with the complete list."},
     "C20": {"text": "The real packet.Receiver runs under the seeded scheduler against a scripted reader. Every outcome sequence up to length 4 (quick) / 5 (thorough) over the 8-letter outcome alphabet is enumerated, each also with a cancel at a drawn read call, then random sequences up to 400 outcomes with cancel at a read call or scheduling step and a slow error consumer. A fold over the outcome sequence is the reference model for processed frames, reported errors, termination, read calls after fatal/cancel and the 5 ms back-off on the virtual clock.",
             "note": "Trusts Go 1.26.8 synctest, simgen's rewrite and the outcome alphabet (errors an AF_PACKET socket produces; wrapped EBADF and fmt-wrapped timeouts are outside it). Enumeration is complete only up to the stated length; schedules are sampled."},
 }
